@@ -131,6 +131,7 @@ type API struct {
 	Faults       []*Fault
 	Crash        *CrashPlan
 	Crashed      bool
+	inCallback   bool
 	callsInStep  int
 	stepEventIdx map[string]map[Res]int // start of the current step in each pending list
 	EverCreated  map[Res]map[string]int // key -> number of successful creates
@@ -188,15 +189,22 @@ func (a *API) record(e *Entry) {
 	e.Seq = a.seq
 	e.Time = a.Clock.Now()
 	a.Ledger = append(a.Ledger, e)
+	// Observers run synchronously while the store lock is held, so that they see
+	// the store exactly as it is after this entry; Get/List skip locking meanwhile
+	// (every other goroutine is blocked on the lock in React).
+	a.inCallback = true
 	for _, f := range a.OnEntry {
 		f(e)
 	}
+	a.inCallback = false
 }
 
 // Get returns a copy of the stored object or nil.
 func (a *API) Get(r Res, key string) runtime.Object {
-	a.mu.Lock()
-	defer a.mu.Unlock()
+	if !a.inCallback {
+		a.mu.Lock()
+		defer a.mu.Unlock()
+	}
 	if o, ok := a.objs[r][key]; ok {
 		return o.DeepCopyObject()
 	}
@@ -205,8 +213,10 @@ func (a *API) Get(r Res, key string) runtime.Object {
 
 // List returns copies of all stored objects of a resource, sorted by key.
 func (a *API) List(r Res) []runtime.Object {
-	a.mu.Lock()
-	defer a.mu.Unlock()
+	if !a.inCallback {
+		a.mu.Lock()
+		defer a.mu.Unlock()
+	}
 	keys := make([]string, 0, len(a.objs[r]))
 	for k := range a.objs[r] {
 		keys = append(keys, k)
